@@ -20,8 +20,8 @@ CssModeOk(r) ==
 Allowed(r) == Agree(r) /\ CssModeOk(r)
 
 Init == l = 1
-Observe == l <= Len(Rec) /\ Allowed(Rec[l]) /\ l' = l + 1
-Reject  == /\ l <= Len(Rec) /\ ~Allowed(Rec[l])
+Observe == l <= Len(Rec) /\ (Allowed(Rec[l]) = TRUE) /\ l' = l + 1
+Reject  == /\ l <= Len(Rec) /\ (Allowed(Rec[l]) = FALSE)
            /\ PrintT(<<"REJECT", ToJson([id |-> Rec[l].id, agree |-> Agree(Rec[l]), cssmode |-> CssModeOk(Rec[l]),
                                           first |-> IF Agree(Rec[l]) THEN 0 ELSE
                                              CHOOSE i \in 1..Len(Rec[l].variants) : ~Same(Rec[l].variants[1], Rec[l].variants[i])])>>)
